@@ -1,7 +1,7 @@
 CONSTANTS
   Cfgs <- C02c_Cfgs
   StoreLists <- C02_Stores
-  CerLists <- C02c_Cers
+  CerLists <- C02ct_Cers
   Known = {}
   Export = TRUE
 SPECIFICATION Spec
